@@ -85,7 +85,20 @@ def ref_fprof_fn(p):
         if p.get('trunc', True):
             return lambda f, c: np.where(np.abs(f - c) < zc, np.sinc((f - c) / zc), 0.0) ** 2
         return lambda f, c: np.sinc((f - c) / zc) ** 2
+    if k == 'custom_abs':
+        return custom_abs_profile(p)
     raise ValueError(k)
+
+
+def custom_abs_profile(p):
+    """A user-written f_profile(f, f_center): gaussian line whose width grows with the centre's offset from a reference
+    frequency, times a comb fixed in ABSOLUTE frequency. It depends on f and f_center individually (not only on f - f_center)."""
+    s0, q, f0, g = p['width'] / FW, p['comb'], p['f_ref'], p['growth']
+
+    def prof(f, c):
+        s = s0 * (1.0 + g * np.abs(c - f0) / q)
+        return np.exp(-(f - c) ** 2 / (2 * s * s)) * (1.0 + 0.5 * np.cos(2 * np.pi * (f - f0) / q))
+    return prof
 
 
 def ref_bp_fn(p, fmid, span):
@@ -150,6 +163,8 @@ def build_lib_fprof(stg, p):
         return stg.voigt_f_profile(p['g_width'], p['l_width'])
     if k == 'sinc2':
         return stg.sinc2_f_profile(p['width'], width_mode=p.get('mode', 'crossing'), trunc=p.get('trunc', True))
+    if k == 'custom_abs':
+        return custom_abs_profile(p)            # the user's own function: it is the input, not code under test
     raise ValueError(k)
 
 
@@ -286,6 +301,9 @@ def evaluate(ref, ts, fs, df, dt, lo, hi, opts):
         c = (P[:T] + k * ((P[1:T + 1] - P[:T]) / n if smear else 0.0))[:, None, None]
         Fv = ref.fprof(g, c)
         envF = np.maximum(np.abs(ref.fprof(g + eps, c) - Fv), np.abs(ref.fprof(g - eps, c) - Fv))
+        if spec['fprof']['kind'] == 'custom_abs':
+            # not a function of (f - centre) alone: an error of the centre is not equivalent to an error of f
+            envF = envF + np.maximum(np.abs(ref.fprof(g, c + eps) - Fv), np.abs(ref.fprof(g, c - eps) - Fv))
         acc += Fv
         accenv += envF * np.abs(B)[None] + np.abs(Fv) * envB[None]
     val = (Tt[:, None, None] * acc * B[None] / n).mean(axis=2)
